@@ -12,7 +12,7 @@ enum OpKind {
     OP_CREATE, OP_OPEN, OP_CLOSE, OP_ABORT, OP_REDEF, OP_ENDDEF, OP_ENDDEF2, OP_BEGIN_INDEP, OP_END_INDEP, OP_SYNC, OP_SYNC_NUMRECS, OP_FLUSH,
     OP_SYNCPOINT, OP_BARRIER, OP_CHECKPOINT,
     OP_DEF_DIM, OP_DEF_VAR, OP_DEF_VAR_FILL, OP_SET_FILL, OP_FILL_VAR_REC, OP_PUT_ATT, OP_DEL_ATT, OP_RENAME_ATT, OP_COPY_ATT, OP_RENAME_DIM, OP_RENAME_VAR,
-    OP_PUT, OP_GET, OP_IPUT, OP_IGET, OP_BPUT, OP_WAIT, OP_CANCEL, OP_ATTACH, OP_DETACH, OP_INQ, OP_BADID, OP_DELETE, OP_SET_DEFAULT_FORMAT, OP_PROBE, OP_OPENPROBE, OP_BIGCASE,
+    OP_PUT, OP_GET, OP_IPUT, OP_IGET, OP_BPUT, OP_WAIT, OP_CANCEL, OP_ATTACH, OP_DETACH, OP_INQ, OP_BADID, OP_DELETE, OP_SET_DEFAULT_FORMAT, OP_PROBE, OP_OPENPROBE, OP_BIGCASE, OP_MANYFILES,
     OP_KIND_COUNT
 };
 extern const char *op_kind_name[];
